@@ -181,16 +181,55 @@ Proof.
   destruct (kids 0 (r_toks r)) as [k e]. apply safe_if; [apply safe_returns | apply safe_iter_end].
 Qed.
 
-Lemma rcpt_loop_safe k e tm : safe (rcpt_loop k e tm).
+Lemma rcpt_loop_no_panic f ev k e tm : no_panic (rcpt_loop f ev k e tm).
 Proof.
   induction k as [|c k IH]; cbn [rcpt_loop]; [apply safe_iter_end|].
-  destruct c; [|exact IH]. apply safe_if; [apply safe_returns | exact IH].
+  destruct c; [|exact IH].
+  destruct (bytes_eqb (nlocal n) (str "received")).
+  - destruct (r_state _ _) as [entry sig]. destruct (_ && _); [destruct sig|]; reflexivity.
+  - destruct (bytes_eqb (nlocal n) (str "request")); [reflexivity | exact IH].
 Qed.
 
-Lemma receipts_handle_safe r : safe (receipts_handle r).
+Lemma receipts_no_panic f ev r : no_panic (receipts_handle f ev r).
 Proof.
-  unfold receipts_handle. destruct (r_toks r) as [|t l]; [apply safe_err|].
-  destruct (kids 0 l) as [k e]. apply rcpt_loop_safe.
+  unfold receipts_handle. destruct (r_toks r) as [|t l]; [reflexivity|].
+  destruct (kids 0 l) as [k e]. apply rcpt_loop_no_panic.
+Qed.
+
+(* deleting first: an entry that is present has not been signalled yet *)
+Lemma r_fold_inv h : forall st, (fst st = true -> snd st = 0) ->
+  fst (fold_left (r_step true) h st) = true -> snd (fold_left (r_step true) h st) = 0.
+Proof.
+  induction h as [|o h IH]; intros [entry sig] Hst; cbn [fold_left]; [exact Hst|].
+  apply IH. destruct o; cbn [r_step fst snd] in *; try exact Hst; try (intros; reflexivity); try discriminate.
+  destruct entry; cbn [fst snd]; [discriminate | exact Hst].
+Qed.
+
+Lemma r_state_inv h : fst (r_state true h) = true -> snd (r_state true h) = 0.
+Proof. unfold r_state. apply r_fold_inv. cbn. discriminate. Qed.
+
+Lemma rcpt_loop_safe f ev k e tm : f_rcpt_delete_first f = true -> safe (rcpt_loop f ev k e tm).
+Proof.
+  intro Hd. induction k as [|c k IH]; cbn [rcpt_loop]; [apply safe_iter_end|].
+  destruct c; [|exact IH].
+  destruct (bytes_eqb (nlocal n) (str "received")).
+  - rewrite Hd. pose proof (r_state_inv (e_hist ev)) as Hi.
+    destruct (r_state true (e_hist ev)) as [entry sig]. cbn [fst snd] in Hi.
+    destruct (existsb _ _); cbn [andb]; [|apply safe_returns].
+    destruct entry; [|apply safe_returns]. rewrite (Hi eq_refl). apply safe_returns.
+  - apply safe_if; [apply safe_returns | exact IH].
+Qed.
+
+Lemma receipts_handle_safe f ev r : f_rcpt_delete_first f = true -> safe (receipts_handle f ev r).
+Proof.
+  intro Hd. unfold receipts_handle. destruct (r_toks r) as [|t l]; [apply safe_err|].
+  destruct (kids 0 l) as [k e]. apply rcpt_loop_safe. exact Hd.
+Qed.
+
+Lemma rcpt_loop_blocked f ev k e tm : mem CBlocked (rcpt_loop f ev k e tm) = true -> f_rcpt_delete_first f = false.
+Proof.
+  intro H. destruct (f_rcpt_delete_first f) eqn:Hd; [|reflexivity].
+  pose proof (rcpt_loop_safe f ev k e tm Hd) as [_ Hb]. congruence.
 Qed.
 
 (* the witness of the pinned tree's panic: a message whose first child is character data *)
@@ -214,39 +253,96 @@ Qed.
 Lemma l_state_not_stale full h : l_state true full h <> LStale.
 Proof. unfold l_state. apply l_fold_not_stale. discriminate. Qed.
 
+(* a receipt repeated while the message still awaits it: [ARSend; ARSignal] then the same receipt *)
+Definition rcpt_env : env := mkenv [str "r1"] true (str "chat") true true [ARSend; ARSignal] false.
+Definition rcpt_msg : rd :=
+  mkrd [TStart (mkname (str "jabber:client") (str "message")) [];
+        TStart (mkname (str "urn:xmpp:receipts") (str "received")) [at_ (str "id") (str "r1")];
+        TEnd (mkname (str "urn:xmpp:receipts") (str "received"));
+        TEnd (mkname (str "jabber:client") (str "message"))] TmEOF.
+
+Lemma receipts_no_delete_parks f : f_rcpt_delete_first f = false -> mem CBlocked (receipts_handle f rcpt_env rcpt_msg) = true.
+Proof. destruct f as [a b c d]. cbn [f_rcpt_delete_first]. intros ->. vm_compute. reflexivity. Qed.
+
+(* ibb: with the owner check a waiting Expect call is always registered *)
+Lemma e_step_not_lost st o : st <> ELost -> e_step true st o <> ELost.
+Proof. intro H. destruct o, st; cbn [e_step]; try exact H; try discriminate. Qed.
+
+Lemma e_fold_not_lost h : forall st, st <> ELost -> fold_left (e_step true) h st <> ELost.
+Proof.
+  induction h as [|o h IH]; intros st H; cbn [fold_left]; [exact H|].
+  apply IH. apply e_step_not_lost. exact H.
+Qed.
+
+Lemma expect_live_registered h : expect_live h = true -> e_state true h = EReg.
+Proof.
+  unfold expect_live. pose proof (e_fold_not_lost h ENone) as Hn. unfold e_state in *.
+  destruct (fold_left (e_step true) h ENone); [discriminate | reflexivity |].
+  exfalso. apply Hn; [discriminate | reflexivity].
+Qed.
+
 Lemma ibb_iq_no_panic f e start : f_keys_agree f = true -> no_panic (ibb_iq f e start).
 Proof.
   intro Hk. unfold ibb_iq. destruct start; try reflexivity.
-  destruct (_ && _); [|reflexivity]. rewrite Hk.
+  destruct (bytes_eqb (nlocal n) (str "open") && e_ok e); [|reflexivity]. rewrite Hk.
   pose proof (l_state_not_stale (e_full e) (e_hist e)) as Hs.
-  destruct (l_state true (e_full e) (e_hist e)) as [|[|]|]; try reflexivity. congruence.
+  destruct (l_state true (e_full e) (e_hist e)) as [|acc|]; try reflexivity; [|congruence].
+  destruct (if e_match e then _ else _); try reflexivity; destruct acc; reflexivity.
 Qed.
 
-(* the listener of the session is accepted from (or there is none) *)
+(* the <open/> finds somebody to take the connection: no listener at all, a
+   listener that is accepted from, or the Expect call registered for the session *)
 Definition listener_served (f : facts) (e : env) : bool :=
-  match l_state (f_keys_agree f) (e_full e) (e_hist e) with LOpen false => false | _ => true end.
+  match l_state (f_keys_agree f) (e_full e) (e_hist e) with
+  | LOpen false => e_match e && match e_state (f_expect_owner f) (e_hist e) with EReg => true | _ => false end
+  | _ => true
+  end.
 
 Lemma ibb_iq_served f e start : f_keys_agree f = true -> listener_served f e = true -> safe (ibb_iq f e start).
 Proof.
   intros Hk Hs. split; [apply ibb_iq_no_panic; exact Hk|].
   unfold ibb_iq, listener_served in *. destruct start; try reflexivity.
-  destruct (_ && _); [|reflexivity].
-  destruct (l_state (f_keys_agree f) (e_full e) (e_hist e)) as [|[|]|]; try reflexivity. discriminate.
+  destruct (bytes_eqb (nlocal n) (str "open") && e_ok e); [|reflexivity].
+  destruct (l_state (f_keys_agree f) (e_full e) (e_hist e)) as [|[|]|]; try reflexivity.
+  - destruct (if e_match e then _ else _); reflexivity.
+  - destruct (e_match e); [|discriminate]. cbn [andb] in Hs.
+    destruct (e_state (f_expect_owner f) (e_hist e)); try discriminate. reflexivity.
 Qed.
 
 Lemma ibb_iq_blocked f e start : mem CBlocked (ibb_iq f e start) = true -> listener_served f e = false.
 Proof.
   unfold ibb_iq, listener_served. destruct start; try discriminate.
-  destruct (_ && _); [|discriminate].
-  destruct (l_state (f_keys_agree f) (e_full e) (e_hist e)) as [|[|]|]; try discriminate. reflexivity.
+  destruct (bytes_eqb (nlocal n) (str "open") && e_ok e); [|discriminate].
+  destruct (l_state (f_keys_agree f) (e_full e) (e_hist e)) as [|[|]|]; try discriminate.
+  - destruct (if e_match e then _ else _); discriminate.
+  - destruct (e_match e); [|reflexivity]. cbn [andb].
+    destruct (e_state (f_expect_owner f) (e_hist e)); try reflexivity. discriminate.
 Qed.
 
+(* an <open/> for the session a live Expect call is waiting for is delivered,
+   with or without anybody in Accept *)
+Lemma ibb_expected_open_delivered f e start :
+  f_keys_agree f = true -> f_expect_owner f = true ->
+  e_match e = true -> expect_live (e_hist e) = true -> safe (ibb_iq f e start).
+Proof.
+  intros Hk Ho Hm Hl. apply ibb_iq_served; [exact Hk|].
+  unfold listener_served. rewrite Ho, Hm, (expect_live_registered _ Hl).
+  destruct (l_state _ _ _) as [|[|]|]; reflexivity.
+Qed.
+
+(* the witness of a lost registration: Listen (nobody accepts), Expect, Expect again for the same session *)
+Definition takeover_env : env := mkenv [] true (str "set") true true [ALListen; AEExpect; AEExpect] true.
+
+Lemma ibb_lost_registration_parks f : f_expect_owner f = false ->
+  mem CBlocked (ibb_iq f takeover_env (TStart (mkname (str "http://jabber.org/protocol/ibb") (str "open")) [])) = true.
+Proof. destruct f as [a b c d]. cbn [f_expect_owner]. intros ->. destruct a; vm_compute; reflexivity. Qed.
+
 (* the witness of a key mismatch: full local JID, Listen, Close, then <open/> *)
-Definition stale_env : env := mkenv [] true (str "set") true true [ALListen; ALAcceptor; ALClose].
+Definition stale_env : env := mkenv [] true (str "set") true true [ALListen; ALAcceptor; ALClose] false.
 Definition open_start : token := TStart (mkname (str "http://jabber.org/protocol/ibb") (str "open")) [].
 
 Lemma ibb_key_mismatch_panics f : f_keys_agree f = false -> mem CPanic (ibb_iq f stale_env open_start) = true.
-Proof. destruct f as [k d]. cbn [f_keys_agree]. intros ->. vm_compute. reflexivity. Qed.
+Proof. destruct f as [k d o r]. cbn [f_keys_agree]. intros ->. vm_compute. reflexivity. Qed.
 
 (* muc *)
 Lemma muc_presence_no_panic f e : no_panic (muc_presence f e).
@@ -265,10 +361,10 @@ Proof.
 Qed.
 
 (* the witness of a blocking departure: joined, removed by the room, joined again, removed again *)
-Definition depart_env : env := mkenv [] true (str "unavailable") true true [AMJoin; AMDepart; AMJoin].
+Definition depart_env : env := mkenv [] true (str "unavailable") true true [AMJoin; AMDepart; AMJoin] false.
 
 Lemma muc_plain_send_parks f : f_depart_select f = false -> mem CBlocked (muc_presence f depart_env) = true.
-Proof. destruct f as [k d]. cbn [f_depart_select]. intros ->. vm_compute. reflexivity. Qed.
+Proof. destruct f as [k d o r]. cbn [f_depart_select]. intros ->. vm_compute. reflexivity. Qed.
 
 (* ---- every component, under the condition its environment must meet ---- *)
 
@@ -277,6 +373,7 @@ Definition comp_cond (f : facts) (c : comp) (e : env) : bool :=
   | HHistory => e_ready e
   | HIbbIQ => listener_served f e
   | HMucPres => f_depart_select f
+  | HReceipts => f_rcpt_delete_first f
   | _ => true
   end.
 
@@ -288,7 +385,7 @@ Proof.
           | apply history_ready_safe; exact H
           | apply ibb_iq_served; assumption
           | apply muc_presence_select; exact H
-          | apply receipts_handle_safe
+          | apply receipts_handle_safe; exact H
           | apply carbons_handle_safe | apply blocklist_handle_safe | apply unmarshal_iq_safe | apply ping_send_safe
           | apply upload_slot_safe | apply items_pages_safe | apply iter_decoding_safe | apply pubsub_fetch_safe
           | apply bookmarks_fetch_safe | apply commands_execute_safe | apply iter_plain_safe
@@ -300,9 +397,9 @@ Qed.
 Lemma run_comp_no_panic f c e start rs : f_keys_agree f = true -> no_panic (run_comp f c e start rs).
 Proof.
   intro Hk. destruct c; cbn [run_comp];
-    first [ apply history_no_panic | apply ibb_iq_no_panic; exact Hk | apply muc_presence_no_panic
+    first [ apply history_no_panic | apply ibb_iq_no_panic; exact Hk | apply muc_presence_no_panic | apply receipts_no_panic
           | apply safe_no_panic;
-            first [ apply safe_returns | apply safe_ok | apply receipts_handle_safe
+            first [ apply safe_returns | apply safe_ok
                   | apply carbons_handle_safe | apply blocklist_handle_safe | apply unmarshal_iq_safe | apply ping_send_safe
                   | apply upload_slot_safe | apply items_pages_safe | apply iter_decoding_safe | apply pubsub_fetch_safe
                   | apply bookmarks_fetch_safe | apply commands_execute_safe | apply iter_plain_safe
@@ -349,7 +446,7 @@ Proof.
 Qed.
 
 Lemma serve_wedge_witness f :
-  In Wedged (serve_may f [[mkinv HHistory (mkenv [str "q1"] false [] true true []) (TChar [])
+  In Wedged (serve_may f [[mkinv HHistory (mkenv [str "q1"] false [] true true [] false) (TChar [])
      [mkrd [TStart (mkname [] (str "message")) []; TStart (mkname (str "urn:xmpp:mam:2") (str "result")) [at_ (str "queryid") (str "q1")]] TmEOF]]]).
 Proof. vm_compute. left. reflexivity. Qed.
 
@@ -359,6 +456,15 @@ Lemma listener_table_keys_agree : f_keys_agree gen_facts = true.
 Proof. vm_compute. reflexivity. Qed.
 
 Lemma depart_is_select : f_depart_select gen_facts = true.
+Proof. vm_compute. reflexivity. Qed.
+
+Lemma expect_cleanup_checks_owner : f_expect_owner gen_facts = true.
+Proof. vm_compute. reflexivity. Qed.
+
+Lemma receipts_delete_first : f_rcpt_delete_first gen_facts = true.
+Proof. vm_compute. reflexivity. Qed.
+
+Lemma session_maps_accessed_under_lock : session_maps_locked = true.
 Proof. vm_compute. reflexivity. Qed.
 
 (* ---- the site inventory ---- *)
@@ -452,12 +558,16 @@ Lemma np_carbons r : mem CPanic (carbons_handle r) = false /\ mem CBlocked (carb
 Proof. apply carbons_handle_safe. Qed.
 Lemma np_blocklist start r : mem CPanic (blocklist_handle start r) = false /\ mem CBlocked (blocklist_handle start r) = false.
 Proof. apply blocklist_handle_safe. Qed.
-Lemma np_receipts r : mem CPanic (receipts_handle r) = false /\ mem CBlocked (receipts_handle r) = false.
-Proof. apply receipts_handle_safe. Qed.
+Lemma np_receipts f e r : mem CPanic (receipts_handle f e r) = false.
+Proof. apply receipts_no_panic. Qed.
+
+(* every sequence of receipts, duplicates included, whatever the application did before *)
+Lemma nw_receipts f e r : f_rcpt_delete_first f = true -> mem CBlocked (receipts_handle f e r) = false.
+Proof. intro H. apply receipts_handle_safe. exact H. Qed.
 
 (* the repaired receipts handler on the input that panicked the pinned one: the
    text is skipped, the request is answered *)
-Lemma receipts_witness_returns : receipts_handle receipts_witness = returns.
+Lemma receipts_witness_returns : receipts_handle gen_facts (mkenv [] true [] true true [] false) receipts_witness = returns.
 Proof. vm_compute. reflexivity. Qed.
 
 Lemma nw_ibb_partial f e start :
@@ -486,7 +596,7 @@ Definition no_wedge_statement : Prop :=
 Lemma no_wedge_statement_refuted : ~ no_wedge_statement.
 Proof.
   intro H.
-  specialize (H gen_facts HHistory (mkenv [str "q1"] false [] true true []) (TChar [])
+  specialize (H gen_facts HHistory (mkenv [str "q1"] false [] true true [] false) (TChar [])
     [mkrd [TStart (mkname [] (str "message")) []; TStart (mkname (str "urn:xmpp:mam:2") (str "result")) [at_ (str "queryid") (str "q1")]] TmEOF]).
   vm_compute in H. discriminate.
 Qed.
@@ -494,13 +604,12 @@ Qed.
 Lemma no_wedge_partial f c e start rs :
   mem CBlocked (run_comp f c e start rs) = true ->
   (c = HHistory /\ e_ready e = false) \/ (c = HIbbIQ /\ listener_served f e = false) \/
-  (c = HMucPres /\ f_depart_select f = false).
+  (c = HMucPres /\ f_depart_select f = false) \/ (c = HReceipts /\ f_rcpt_delete_first f = false).
 Proof.
   intro H.
   destruct c; cbn [run_comp] in H;
     try (exfalso;
          first [ (pose proof safe_returns as [_ Hb]; congruence) | (pose proof safe_ok as [_ Hb]; congruence)
-               | (pose proof (receipts_handle_safe (first_rd rs)) as [_ Hb]; congruence)
                | (pose proof (carbons_handle_safe (first_rd rs)) as [_ Hb]; congruence)
                | (pose proof (blocklist_handle_safe start (first_rd rs)) as [_ Hb]; congruence)
                | (pose proof (unmarshal_iq_safe vnil e (first_rd rs)) as [_ Hb]; congruence)
@@ -515,6 +624,9 @@ Proof.
                | (pose proof (carbons_unwrap_safe (r_toks (first_rd rs))) as [_ Hb]; congruence)
                | (pose proof (forward_unwrap_safe (r_toks (first_rd rs))) as [_ Hb]; congruence) ]).
   - left. split; [reflexivity | apply (history_blocked e (first_rd rs) H)].
+  - right. right. right. split; [reflexivity|].
+    unfold receipts_handle in H. destruct (r_toks (first_rd rs)); [discriminate|].
+    destruct (kids 0 l) as [k en]. apply (rcpt_loop_blocked f e k en _ H).
   - right. left. split; [reflexivity | apply (ibb_iq_blocked f e start H)].
-  - right. right. split; [reflexivity | apply (muc_presence_blocked f e H)].
+  - right. right. left. split; [reflexivity | apply (muc_presence_blocked f e H)].
 Qed.
